@@ -818,6 +818,31 @@ func (w *World) DrawAction(rt *rapid.T, p *Profile) (Action, string) {
 			{Op: "fault", Faults: []sim.Fault{{Kind: sim.ADescribeASG, Nth: 0, Count: 1, Code: rapid.SampledFrom(cloudErrorCodes).Draw(rt, "code")}}}, {Op: "scan", Flag: true},
 			{Op: "launch", Group: g, N: 1, Ages: []int64{0}, Flag: true}, {Op: "scan", Flag: true},
 			{Op: "drainAndForce", Group: g, Names: []string{"@newest"}}, {Op: "scan", Flag: true}}}, "rebuildThenReapNewNode"
+	case "minRaisedWhileRefreshFails": // somebody raises the cloud group's minimum; the next scan's refresh is throttled once; the group is idle
+		asg := w.ASG(g)
+		if n := int64(len(w.GroupNodeNames(g))); n >= 2 && asg.Min < n && n <= asg.Max {
+			tp, _ := w.drawTargetPods(rt, g, "zero", "belowL")
+			newMin := rapid.Int64Range(asg.Min+1, n).Draw(rt, "newMin")
+			return Action{Op: "seq", Seq: []Action{{Op: "scan", Flag: true}, {Op: "asgEdit", Group: g, N: int(newMin), M: int(asg.Max)}, tp,
+				{Op: "fault", Faults: []sim.Fault{{Kind: sim.ADescribeASG, Nth: 0, Count: 1, Code: rapid.SampledFrom([]string{"Throttling", "RequestLimitExceeded", "ServiceUnavailable", ""}).Draw(rt, "code")}}},
+				{Op: "scan", Flag: true}, {Op: "scan", Flag: true}}}, "minRaisedWhileRefreshFails"
+		}
+	case "fracAllocStarve": // nodes whose allocatable memory is a fractional binary-SI quantity run pods; two scans look at them
+		names := w.GroupNodeNames(g)
+		if len(names) > 0 {
+			via := "selector"
+			if w.Cfg.Groups[g].Opts.Name == controller.DefaultNodeGroup {
+				via = "none"
+			}
+			var seq []Action
+			k := rapid.IntRange(1, minInt(3, len(names))).Draw(rt, "k")
+			for _, n := range names[:k] {
+				seq = append(seq, Action{Op: "fracAlloc", Node: n, Val: rapid.SampledFrom([]string{"7.5Gi", "15.5Gi", "1.5Gi", "0.5Ti", "3.75Gi"}).Draw(rt, "memory")},
+					Action{Op: "addPods", Group: g, Pods: []PodSpec{{Group: g, Via: via, CPU: 100, Mem: int64(rapid.IntRange(1, 900).Draw(rt, "memMB")) * 1_000_000, Node: n}}})
+			}
+			seq = append(seq, Action{Op: "addPods", Group: g, Pods: []PodSpec{{Group: g, Via: via, CPU: 100, Mem: 64_000_000}}}, Action{Op: "scan", Flag: true}, Action{Op: "scan", Flag: true})
+			return Action{Op: "seq", Seq: seq}, "fracAllocStarve"
+		}
 	case "onlyCordonedLeft": // every node still in service is cordoned; some others may be on their way out; pods wait (or not)
 		names := w.GroupNodeNames(g)
 		if len(names) > 0 && len(names) <= 12 {
